@@ -33,6 +33,7 @@ fn start_nonce(half: bool, rnd6: &[u8]) -> Vec<u8> {
 }
 
 fn core_scenario(a: &[&str]) -> String {
+    hc::take_seal_log();
     let alg = algo(a[0]);
     let key: u64 = num(a[1]);
     let ra: Vec<Vec<u8>> = a[2].split(',').map(unhex).collect();
@@ -117,6 +118,14 @@ fn core_scenario(a: &[&str]) -> String {
                 core.rotate_key(mk_key(alg, kid), id, use_);
                 hc::set_send_nonce(core, (id % 4) as usize, &start_nonce(half, &rnd));
                 out.push("-".into());
+            }
+            "q" => {
+                hc::set_send_nonce(core, num(p[2]), &unhex(p[3]));
+                out.push("-".into());
+            }
+            "z" => {
+                let log = hc::take_seal_log();
+                out.push(format!("z{}", log.iter().map(|(f, n)| format!("{}/{}", hex(f), hex(n))).collect::<Vec<_>>().join(",")));
             }
             "p" => {
                 let (cur, st) = hc::dump(core);
@@ -204,6 +213,7 @@ fn result_str(r: Result<MessageResult<VPayload>, Error>, buf: &MsgBuffer) -> Str
 
 fn pc_scenario(a: &[&str]) -> String {
     hi::clear_salts();
+    hc::take_seal_log();
     let mut objs: HashMap<u32, PeerCrypto<VPayload>> = HashMap::new();
     let mut sent: Vec<Vec<u8>> = vec![];
     let mut meta: Vec<(u32, char)> = vec![];
@@ -344,6 +354,37 @@ fn pc_scenario(a: &[&str]) -> String {
                 "X" => {
                     objs.remove(&num(p[1]));
                     "-".into()
+                }
+                "V" => {
+                    // V.<obj>.<k>.<cut>: the receive buffer first held datagram k in full (an earlier delivery), then the
+                    // datagram cut to <cut> bytes is received into the SAME buffer (as the event loop reuses it)
+                    let o = objs.get_mut(&num(p[1])).unwrap();
+                    let k: usize = num(p[2]);
+                    let cut: usize = num(p[3]);
+                    if k >= sent.len() {
+                        return "-".into();
+                    }
+                    let full = sent[k].clone();
+                    let mut buf = MsgBuffer::new(100);
+                    buf.clone_from(&full);
+                    buf.clear();
+                    buf.set_length(cut.min(full.len()));
+                    let n = cut.min(full.len());
+                    buf.message_mut().copy_from_slice(&full[..n]);
+                    let r = o.handle_message(&mut buf);
+                    let reply = matches!(r, Ok(MessageResult::Reply) | Ok(MessageResult::InitializedWithReply(_)));
+                    let mut s = result_str(r, &buf);
+                    if reply {
+                        let d = buf.message().to_vec();
+                        s.push_str(&describe(&d));
+                        meta.push((num(p[1]), kind_of(false, &d)));
+                        sent.push(d);
+                    }
+                    s
+                }
+                "Z" => {
+                    let log = hc::take_seal_log();
+                    format!("z{}", log.iter().map(|(f, n)| format!("{}/{}", hex(f), hex(n))).collect::<Vec<_>>().join(","))
                 }
                 "Q" => {
                     let o = objs.get(&num(p[1])).unwrap();
